@@ -17,6 +17,7 @@ let kfile : z list option ref = ref None   (* the data file as the kernel keeps 
 let st : exf option ref = ref None
 let poisoned = ref false
 let ro = ref false
+let ro_writes = ref false
 let lim : z option ref = ref None
 let maplim : z option ref = ref None
 let locks_next = ref false
@@ -121,6 +122,7 @@ let handle toks =
     maplim := (if sign_of_z v < 0 then None else Some (Z.add cur v));
     "maplimit OK" ^ tail ()
   | ["locks"; n] -> locks_next := (n <> "0"); "locks OK" ^ tail ()
+  | ["rowrites"; n] -> ro_writes := (n <> "0"); "rowrites OK" ^ tail ()
   | ["raw"; len; seed] ->
     if !st <> None && not !poisoned then "raw BUSY" ^ tail ()
     else (kfile := Some (pattern (int_of_string len) (int_of_string seed)); "raw OK" ^ tail ())
@@ -152,7 +154,18 @@ let handle toks =
     match !st with
     | None -> op ^ " NOTOPEN"
     | Some s ->
-      if !ro && not (List.mem op ["read"; "state"; "probe"; "syncmm"; "close"]) then op ^ " ROMODE" ^ tail () else
+      if !ro && not (List.mem op ["read"; "state"; "probe"; "syncmm"; "close"])
+             && not (!ro_writes && List.mem op ["addmm"; "rmmm"; "write"; "copy"]) then op ^ " ROMODE" ^ tail () else
+      if !ro && op = "write" then
+        (match args with
+         | [off; h] -> let (rc, sp) = exfile_write_ro s (z_of_string off) (bytes_of_hex h) in
+           Printf.sprintf "write %s %s%s" (rcname rc) (string_of_z sp) (tail ())
+         | _ -> "write BADOP" ^ tail ())
+      else if !ro && op = "copy" then
+        (match args with
+         | [off; siz; noff] -> "copy " ^ rcname (exfile_copy_ro s (z_of_string off) (z_of_string siz) (z_of_string noff)) ^ tail ()
+         | _ -> "copy BADOP" ^ tail ())
+      else
       let run o fmt =
         let (r, s') = call s o in
         if r.o_rc = eXF_CRASH then (poisoned := true; op ^ " CRASH")
